@@ -350,7 +350,7 @@ func (r *Regex) Find(b []byte) []byte {
 	if !found {
 		return nil
 	}
-	return b[start:end]
+	return b[start:end:end] // capacity-limited like regexp: an append to the result must not write into b
 }
 
 // FindString returns a string holding the text of the leftmost match in s.
@@ -441,7 +441,7 @@ func (r *Regex) findAllStreaming(b []byte, n int) [][]byte {
 	// Convert indices to byte slices
 	matches := make([][]byte, len(streamResults))
 	for i, m := range streamResults {
-		matches[i] = b[m[0]:m[1]]
+		matches[i] = b[m[0]:m[1]:m[1]]
 	}
 
 	return matches
@@ -1627,7 +1627,7 @@ func (r *Regex) AllStringIndex(s string) iter.Seq[[2]int] {
 func (r *Regex) All(b []byte) iter.Seq[[]byte] {
 	return func(yield func([]byte) bool) {
 		for m := range r.AllIndex(b) {
-			if !yield(b[m[0]:m[1]]) {
+			if !yield(b[m[0]:m[1]:m[1]]) {
 				return
 			}
 		}
